@@ -367,10 +367,15 @@ def check_case(ctx, spec, tag):
     text, req = build(spec)
     ctx.k += 1
     path = os.path.join(ctx.dir, f"cat{ctx.k}." + {"csep-csv": "csv", "zmap": "dat", "jma-csv": "csv", "ingv_horus": "txt", "ndk": "ndk"}[fmt])
-    with open(path, "w", newline="") as f:
-        f.write(text)
     recs = spec["recs"]
     sha = hashlib.sha1(text.encode()).hexdigest()
+    # every fourth file (chosen by the content hash, so a replay makes the same choice) lacks the final newline:
+    # the records are still well-formed and the last one must be read
+    strip_nl = int(sha[:2], 16) % 4 == 0 and text.endswith("\n")
+    with open(path, "w", newline="") as f:
+        f.write(text[:-1] if strip_nl else text)
+    if strip_nl:
+        run.count("file-without-final-newline")
     case = dict(tag=tag, fmt=fmt, n=len(recs), sha1=sha, spec=spec)
     small = dict(tag=tag, fmt=fmt, n=len(recs), sha1=sha, first=recs[0]["text"] if recs else None)
     run.case(small, sha if any(r.get("boundary") for r in recs) else None)
